@@ -41,7 +41,8 @@ fn mk_word(r: &mut R, width: usize) -> String {
 }
 
 /// lay the words out as HTML: arbitrary whitespace runs, text-node splits and inline elements
-fn render_html(r: &mut R, words: &[String], wrapper: (&str, &str)) -> String {
+/// `allow_a`: inline links may be used (only with decorators that add no characters around a link)
+fn render_html(r: &mut R, words: &[String], wrapper: (&str, &str), allow_a: bool) -> String {
     let mut s = String::from(wrapper.0);
     let mut open: Vec<&str> = Vec::new();
     if r.p(30) {
@@ -60,7 +61,7 @@ fn render_html(r: &mut R, words: &[String], wrapper: (&str, &str)) -> String {
                     let t = open.pop().unwrap();
                     s.push_str(&format!("</{t}>"));
                 } else if open.len() < 3 {
-                    let t = r.pick(&["em", "strong", "code", "span", "a"]);
+                    let t = if allow_a { r.pick(&["em", "strong", "code", "span", "a"]) } else { r.pick(&["em", "strong", "code", "span"]) };
                     if t == "a" {
                         s.push_str("<a href=\"u\">");
                     } else {
@@ -116,7 +117,7 @@ impl Prop for C04 {
                     if tier == Tier::Quick && r.p(50) {
                         continue;
                     }
-                    let html = render_html(r, &words, ("<p>", "</p>"));
+                    let html = render_html(r, &words, ("<p>", "</p>"), true);
                     let mut c = case(html, base.clone(), lw, "g-enum");
                     c.aux = aux(&words, lw);
                     v.push(c);
@@ -157,7 +158,8 @@ impl Prop for C04 {
                 }
                 _ => {}
             }
-            let html = render_html(r, &words, wrapper);
+            // the plain decorator (used for the prefixed variants) writes a link as `[text]`: no links there
+            let html = render_html(r, &words, wrapper, cfg.deco != crate::cfg::Deco::Plain);
             let mut c = case(html, cfg, lw, "random");
             c.aux = aux(&words, eff);
             v.push(c);
@@ -185,8 +187,7 @@ impl Prop for C04 {
             (Obs::Ok(_), Ok(exp)) => {
                 let got: Vec<String> = o.text_lines().unwrap();
                 let got: Vec<String> = if has_prefix { got.iter().map(|l| l.chars().skip(prefix).collect()).collect() } else { got };
-                let inline_link = c.html.windows(3).any(|w| w == b"<a ") && c.cfg.footnotes;
-                if got != exp && !inline_link {
+                if got != exp {
                     out.push(viol(format!("lines {:?} differ from the greedy reference {:?} (effective width {eff}, word widths {:?})", got, exp, words.iter().map(|w| sw(w)).collect::<Vec<_>>())));
                 }
             }
